@@ -262,7 +262,7 @@ def c10_step(before, rpc, out, after):
   v = []
   if rpc[0] != 'UpdateMetadata':
     return v
-  _, o, sid, smd, tmd = rpc
+  _, o, sid, smd, tmd = rpc[:5]
   nb, na = nodes_of(before), nodes_of(after)
   key = (o, sid)
   if key not in nb or nb[key]['study']['state'] not in ('SS_ACTIVE', 'SS_UNSPEC'):
